@@ -95,7 +95,7 @@ pub fn compare_unsub(pipe: &Pipe, late: bool, seed: u64, unsub_at: Option<usize>
 fn branch_teardown_battery(rep: &mut Report) {
   use rxrust::prelude::*;
   use std::sync::{Arc, Mutex};
-  for limit in [usize::MAX, 2usize] {
+  for limit in [usize::MAX, 2usize, 0usize] {
     rep.evaluations += 1;
     rep.count("branch_teardown_orders_compared", 1);
     let run = |threads: bool| -> Vec<String> {
